@@ -72,6 +72,17 @@ def run_batch(chk, E, orc, rnd, cases_in, label, diffs, fails):
             mops.append("litm 0 simple x S - 0 S - 0")
         else:
             mops.append("litm %d %s %s" % (len(c["keys"]), " ".join("%d %d" % (b, v) for (t, b, v, u) in c["keys"]), ir))
+    # (a') the ENCODER model of split: rebuild the emitted machine from the recovered draws
+    sp = [c for c in cases if c["obf"] == "split" and not c["ir"].startswith("!") and len(c["data"]) > 0]
+    spops = ["splitplanm %d %s %s %s" % (len(c["keys"]), " ".join("%d %d" % (b, v) for (t, b, v, u) in c["keys"]), hx(c["data"]), c["ir"]) for c in sp]
+    spops = [" ".join(o.split()) for o in spops]
+    for c, m in zip(sp, c01model.model_answers(spops) if spops else []):
+        st = chk.cov["streams"].setdefault("oracle:split-encoder", {"cases": 0, "rebuilt_identically": 0})
+        st["cases"] += 1
+        if m == "ok":
+            st["rebuilt_identically"] += 1
+        else:
+            diffs.append({"op": "buildSplit vs real split obfuscator seed=%d data=%s" % (c["seed"], c["data"].hex()[:80]), "impl": c["ir"][:300], "model": m})
     ans = c01model.model_answers(mops)
     for c, m in zip(cases, ans):
         if c["ir"].startswith("!"):
@@ -237,6 +248,6 @@ def main(tier, replay=None):
                        "(must give the plaintext); the same decoders are compiled by the Go compiler and executed (must print the plaintext). Plus whole files through literals.Obfuscate "
                        "(every syntactic context, junk, proxy structs) compiled and run against the original.")
     chk.assumptions += ["Go's semantics of the emitted decoder subset is TESTED (compile and run), not modelled beyond the decoder IR",
-                        "roundtrip of `split` is not yet a theorem (its decoder is evaluated by the model and executed for every sample); simple, swap, shuffle, seed, ext-key statements, byte expressions and the junk/array wrappers are theorems for all inputs",
+                        "all five obfuscators (simple, swap, split, shuffle, seed), the ext-key statements, byte expressions and the junk/array wrappers are round-trip theorems for all inputs; the split ENCODER model is additionally rebuilt from the recovered draws and compared with the real output",
                         "well-formedness of the draws (positions < len, permutation, shift < width) follows from math/rand's contracts (Intn(n) < n, Perm is a permutation): assumed, and observed on every sample"]
     return chk.finish()
